@@ -42,14 +42,43 @@ theorem valsOkAux_of (js : JS) (k : Nat) (dl : List (List Decl)) (sl : List Svc)
 theorem valsOk_of_inv (decls : List (List Decl)) (s : St) (js : JS) (inv : Inv decls s js) :
     valsOk decls js (readVals s) = true := by
   have := valsOkAux_of js 0 decls s.h.svcs inv.svcs.1 (by
-    intro i ds sv h1 h2; simpa using inv.svcs.2 i ds sv h1 h2)
+    intro i ds sv h1 h2; simpa using (inv.svcs.2 i ds sv h1 h2).1)
+  exact this
+
+theorem cbsOkAux_of (js : JS) (k : Nat) (dl : List (List Decl)) (sl : List Svc) (hlen : sl.length = dl.length)
+    (h : ∀ i ds sv, dl[i]? = some ds → sl[i]? = some sv → sv.events.length = (notifiesFor js (k + i)).length) :
+    cbsOkAux js k (sl.map (·.events.length)) = true := by
+  induction dl generalizing sl k with
+  | nil => cases sl with
+    | nil => rfl
+    | cons _ _ => cases hlen
+  | cons ds dr ih =>
+    cases sl with
+    | nil => cases hlen
+    | cons sv sr =>
+      simp only [List.map_cons, cbsOkAux, Bool.and_eq_true, beq_iff_eq]
+      constructor
+      · exact h 0 ds sv rfl rfl
+      · apply ih (k + 1) sr (by simpa using hlen)
+        intro i ds' sv' h1 h2
+        have := h (i + 1) ds' sv' (by simpa using h1) (by simpa using h2)
+        have e : k + (i + 1) = k + 1 + i := by omega
+        rw [e] at this
+        exact this
+
+theorem cbsOk_of_inv (decls : List (List Decl)) (s : St) (js : JS) (inv : Inv decls s js) :
+    cbsOk decls js (readCbs s) = true := by
+  have := cbsOkAux_of js 0 decls s.h.svcs inv.svcs.1 (by
+    intro i ds sv h1 h2; simpa using (inv.svcs.2 i ds sv h1 h2).2)
+  simp only [cbsOk, readCbs, List.length_map, inv.svcs.1, beq_self_eq_true, Bool.true_and]
   exact this
 
 /-- one in-domain event keeps the invariant and produces an acceptable answer -/
 theorem step_inv (cfg : Cfg) (decls : List (List Decl)) (hd : ∀ ds ∈ decls, declsWF ds) (s : St) (js : JS)
     (inv : Inv decls s js) (e : Ev) (k : Nat) (hsc : evInScope js e = true) :
     Inv decls (step cfg s e k).1 (advance js e)
-    ∧ outOk { ev := e, out := (step cfg s e k).2, vals := readVals (step cfg s e k).1 } = true := by
+    ∧ outOk { ev := e, out := (step cfg s e k).2, vals := readVals (step cfg s e k).1,
+              cbs := readCbs (step cfg s e k).1 } = true := by
   cases e with
   | start svc t =>
     simp only [evInScope, Bool.not_eq_true'] at hsc
@@ -120,7 +149,7 @@ theorem schedules_from (cfg : Cfg) (decls : List (List Decl)) (hd : ∀ ds ∈ d
     split
     · rename_i hsc
       obtain ⟨hinv, hout⟩ := step_inv cfg decls hd s js inv e k hsc
-      rw [hout, valsOk_of_inv decls _ _ hinv, ih _ _ _ hinv]
+      rw [hout, valsOk_of_inv decls _ _ hinv, cbsOk_of_inv decls _ _ hinv, ih _ _ _ hinv]
       rfl
     · rfl
 
@@ -238,5 +267,8 @@ example : readVals (run exCfg (initSt exDecls) exSchedule 0) = [[(['A'], some (.
 /-- the judge rejects the behaviour of the one-slot backlog (B lost) -/
 example : ok exDecls ((modelTrace exCfg (initSt exDecls) exSchedule 0).map fun o =>
     { o with vals := o.vals.map fun l => l.map fun p => if p.1 = ['B'] then (p.1, none) else p }) = false := by decide
+/-- … and a callback made on behalf of a NOTIFY whose SID was never granted -/
+example : ok exDecls ((modelTrace exCfg (initSt exDecls) exSchedule 0).map fun o =>
+    { o with cbs := o.cbs.map (· + 1) }) = false := by decide
 
 end Upnp.C11
